@@ -478,6 +478,9 @@ func C17(tier string) int {
 			if failed {
 				continue
 			}
+			for _, d := range a.HeldPayloadsChanged() {
+				bad("payload-changed-after-hand-over", d)
+			}
 			outc[fmt.Sprintf("forwarded=%v", forwards > 0)]++
 			classes[c.String()] = struct{}{}
 			if shouldForward && forwards == 0 {
